@@ -416,17 +416,23 @@ class Interp:
             return [(None, self._apply_kill(env2, cx))]
         # simple statements
         if isinstance(a, ast.Assign):
-            kinds = self.ev(a.value, env, cx)
-            env2 = self._apply_kill(env, cx)
-            for tg in a.targets:
-                env2 = self._assign(tg, a.value, kinds, env2, env, cx)
-            return [(None, env2)]
+            outs_a: List[Tuple[Optional[str], Env]] = []
+            for val, en in self._fork_value(a.value, env, cx):
+                kinds = self.ev(val, en, cx)
+                env2 = self._apply_kill(en, cx)
+                for tg in a.targets:
+                    env2 = self._assign(tg, val, kinds, env2, en, cx)
+                outs_a.append((None, env2))
+            return outs_a
         if isinstance(a, ast.AnnAssign):
             if a.value is None:
                 return [(None, env)]
-            kinds = self.ev(a.value, env, cx)
-            env2 = self._apply_kill(env, cx)
-            return [(None, self._assign(a.target, a.value, kinds, env2, env, cx))]
+            outs_b: List[Tuple[Optional[str], Env]] = []
+            for val, en in self._fork_value(a.value, env, cx):
+                kinds = self.ev(val, en, cx)
+                env2 = self._apply_kill(en, cx)
+                outs_b.append((None, self._assign(a.target, val, kinds, env2, en, cx)))
+            return outs_b
         if isinstance(a, ast.AugAssign):
             self.ev(a.value, env, cx)
             env2 = self._apply_kill(env, cx)
@@ -447,6 +453,8 @@ class Interp:
             self._raise(a, n, env, cx)
             return []
         if isinstance(a, ast.Assert):
+            if self._holds_by_type(cfg, n, a.test, cx):
+                return [(None, env)]
             t, f_ = self.split(a.test, env, cx)
             for e in f_:
                 cx.raised.append(('AssertionError', self._w(cx, f'assert {norm(a.test)} can fail', e, okey='assert:' + norm(a.test))))
@@ -459,6 +467,58 @@ class Interp:
                     env2 = env_kill(env2, key)
             return [(None, env2)]
         return [(None, env)]
+
+    def _holds_by_type(self, cfg: CFG, n: Node, test: ast.expr, cx: Ctx) -> bool:
+        """`assert isinstance(x, C)` cannot fail when every definition of x reaching the assertion has a static type that is an
+        instance of a subclass of C (reaching definitions from flow.py, types from the annotations / constructors / handlers)."""
+        if not (isinstance(test, ast.Call) and isinstance(test.func, ast.Name) and test.func.id == 'isinstance' and len(test.args) == 2
+                and isinstance(test.args[0], ast.Name)):
+            return False
+        from .flow import flow_of
+        from .types import members
+        wanted = []
+        for x in (test.args[1].elts if isinstance(test.args[1], ast.Tuple) else [test.args[1]]):
+            tt = self.types.expr(x, cx.scope)
+            for m in members(tt):
+                if m[0] == 'cls':
+                    wanted.append(m[1])
+        if not wanted:
+            return False
+        try:
+            alts = flow_of(cfg).alts(n, test.args[0])
+        except Exception:
+            return False
+        if not alts:
+            return False
+        for al in alts:
+            hn = al.node if getattr(al.node, 'kind', '') == 'handler' else getattr(al.node, 'handler', None)
+            if isinstance(al.expr, ast.Name) and hn is not None and getattr(hn.ast, 'name', None) == al.expr.id and hn.caught:
+                # the variable bound by the enclosing `except C as e` clause
+                if all(any(self.prog.exc_subclass(C, w) for w in wanted) for C in hn.caught):
+                    continue
+                return False
+            ms = members(self.types.expr(al.expr, cx.scope))
+            if not ms:
+                return False
+            for m in ms:
+                if m[0] != 'inst':
+                    return False
+                ci = self.prog.classes.get(m[1])
+                if ci is None or not any(getattr(c, 'qualname', None) in wanted for c in self.prog.mro(ci)):
+                    return False
+        return True
+
+    def _fork_value(self, value: ast.expr, env: Env, cx: Ctx, depth: int = 0) -> List[Tuple[ast.expr, Env]]:
+        """`x = A if c else B` is analysed as `if c: x = A else: x = B` (the environments are split on c)."""
+        if isinstance(value, ast.IfExp) and depth < 4:
+            t, f_ = self.split(value.test, env, cx)
+            out: List[Tuple[ast.expr, Env]] = []
+            for en in t:
+                out += self._fork_value(value.body, en, cx, depth + 1)
+            for en in f_:
+                out += self._fork_value(value.orelse, en, cx, depth + 1)
+            return out
+        return [(value, env)]
 
     def _apply_kill(self, env: Env, cx: Ctx) -> Env:
         for k in cx.kill:
